@@ -33,7 +33,7 @@ class State:
     def __init__(s):
         s.frames = []; s.objs = {}; s.pc = []; s.next_obj = 0; s.exc = None; s.caught = []
         s.draws = []; s.observes = []; s.sid = next(_sid); s.model = None; s.steps = 0
-        s.nchoice = 0; s.notes = []; s.tasks = None; s.decisions = 0; s.clock = None; s.loopcnt = {}; s.fidx = 0; s.facts = {}
+        s.nchoice = 0; s.notes = []; s.tasks = None; s.decisions = 0; s.clock = None; s.loopcnt = {}; s.fidx = 0; s.facts = {}; s.havoc_used = False
     def clone(s):
         n = State()
         s.sid = next(_sid)      # objects owned so far become shared by both states (copy on write)
@@ -42,7 +42,7 @@ class State:
         n.draws = list(s.draws); n.observes = list(s.observes); n.model = s.model; n.steps = s.steps
         n.nchoice = s.nchoice; n.notes = list(s.notes); n.decisions = s.decisions; n.clock = s.clock
         n.tasks = None if s.tasks is None else {k: (set(a), set(b)) for k, (a, b) in s.tasks.items()}
-        n.loopcnt = dict(s.loopcnt); n.fidx = s.fidx; n.facts = dict(s.facts)
+        n.loopcnt = dict(s.loopcnt); n.fidx = s.fidx; n.facts = dict(s.facts); n.havoc_used = s.havoc_used
         if 'flmemo' in s.__dict__: n.flmemo = dict(s.flmemo)
         if 'rngcache' in s.__dict__: n.rngcache = dict(s.rngcache)
         return n
@@ -311,7 +311,10 @@ class Engine:
         if o.ro:
             for (a, b) in o.ro:
                 if off < b and off + nb > a:
-                    raise s.fail(st, 'protect', 'store into protected region of %s at offset %d (frame condition)' % (o.name, off))
+                    # recorded, but execution continues (the write happens): a later assertion on the public state can then
+                    # confirm the violation natively, where the heap contents of containers are not covered by the snapshot
+                    s.fail(st, 'protect', 'store into protected region of %s at offset %d (frame condition)' % (o.name, off))
+                    return
         if o.kind == 'global':
             g = s.mod.globals.get(o.name)
             if g is not None and g.const: raise s.fail(st, 'ub', 'store into constant global ' + o.name)
@@ -937,7 +940,7 @@ class Engine:
         st.sid = next(_sid)
         st.next_obj = max(s1.next_obj, s2.next_obj)
         st.steps = max(s1.steps, s2.steps)
-        st.observes = obs; st.draws = s1.draws; st.notes = s1.notes
+        st.observes = obs; st.draws = s1.draws; st.notes = s1.notes; st.havoc_used = s1.havoc_used or s2.havoc_used
         st.tasks = s1.tasks if s1.tasks is not None else s2.tasks
         if s1.tasks is not None and s2.tasks is not None:
             for k in s2.tasks:
@@ -971,7 +974,7 @@ class Engine:
         extra = s1.pc[n0:]
         st.frames = s1.frames; st.objs = s1.objs; st.sid = s1.sid; st.next_obj = s1.next_obj; st.steps = s1.steps
         st.observes = s1.observes; st.draws = s1.draws; st.notes = s1.notes; st.tasks = s1.tasks; st.exc = s1.exc; st.caught = s1.caught
-        st.nchoice = s1.nchoice; st.loopcnt = s1.loopcnt
+        st.nchoice = s1.nchoice; st.loopcnt = s1.loopcnt; st.havoc_used = s1.havoc_used
         s.activate(st)
         for e in extra: s.add_pc(st, e)
         st.model = s1.model
@@ -1026,7 +1029,7 @@ class Engine:
     def path_finished(s, st):
         if len(s.samples) < 3:
             m = st.model if st.model is not None else s.any_model(st)
-            s.samples.append(dict(choices=list(s.choices[:st.nchoice]), draws=s.model_draws(st, m), pc_size=len(st.pc), steps=st.steps,
+            s.samples.append(dict(choices=list(s.choices[:st.nchoice]), draws=s.model_draws(st, m), pc_size=len(st.pc), steps=st.steps, havoc=st.havoc_used,
                                   observes=[s.model_obs(m, o) for o in st.observes]))
     def model_obs(s, m, o):
         if isinstance(o, (int, float)): return o
